@@ -1289,6 +1289,8 @@ class Engine:
             raise Unsupported("attribute %s of %s" % (attr, obj.cls))
         if isinstance(obj, Const) and isinstance(obj.py, tuple) and obj.py[0] == "module":
             return Const(("modattr", obj.py[1], attr))
+        if isinstance(obj, Const) and isinstance(obj.py, tuple) and obj.py[0] == "modattr":      # module.Class.function as a value
+            return Const(("modattr", "%s.%s" % (obj.py[1], obj.py[2]), attr))
         raise Unsupported("attribute %s of %r" % (attr, obj))
 
     def comprehension(self, node, st, exits):
@@ -1344,13 +1346,15 @@ class Engine:
             key = "call:" + ast.unparse(f)
             if key in self.c.calls:
                 args = [self.eval(a, st, exits) for a in node.args]
-                return self.c.calls[key].handler(self, st, args, {}, node, exits)
+                kw = {k.arg: self.eval(k.value, st, exits) for k in node.keywords}
+                return self.c.calls[key].handler(self, st, args, kw, node, exits)
             recv = self.eval(recv_node, st, exits)
             args = [self.eval(a, st, exits) for a in node.args]
             if isinstance(recv, Obj):
                 key = "method:%s.%s" % (recv.cls, self.mangle(f.attr))
                 if key in self.c.calls:
-                    return self.c.calls[key].handler(self, st, [recv] + args, {}, node, exits)
+                    kw = {k.arg: self.eval(k.value, st, exits) for k in node.keywords}
+                    return self.c.calls[key].handler(self, st, [recv] + args, kw, node, exits)
                 raise Unsupported("call of %s (no contract given)" % key)
             if isinstance(recv, Seq):
                 return self.seq_method(recv, f.attr, args, st, exits, node, recv_node)
@@ -1362,6 +1366,14 @@ class Engine:
         if isinstance(f, ast.Name):
             name = f.id
             key = "func:" + name
+            bound = st.env.get(name)
+            if isinstance(bound, Const) and isinstance(bound.py, tuple) and bound.py[0] == "modattr":
+                # a local name bound to module.Class.function: the call goes to that function's contract whatever the local is called
+                key2 = "call:%s.%s" % (bound.py[1], bound.py[2])
+                if key2 in self.c.calls:
+                    args = [self.eval(a, st, exits) for a in node.args]
+                    kw = {k.arg: self.eval(k.value, st, exits) for k in node.keywords}
+                    return self.c.calls[key2].handler(self, st, args, kw, node, exits)
             if key in self.c.calls:
                 args = [self.eval(a, st, exits) for a in node.args]
                 kw = {k.arg: self.eval(k.value, st, exits) for k in node.keywords}
